@@ -19,6 +19,7 @@ RULE = (
     "in the presented logs (mirrored when reverse_log_information=False) every FS predecessor's last WORKING "
     "entry precedes the successor's first WORKING entry, and all logs have project.time entries. In the thorough "
     'A dependency-rich profile puts FF/SF links next to FS links on one task, with one specialist worker per task. '
+    'One case in four backward-simulates the model after a JSON round trip; models contain sub-project tasks. '
     "tier every (step, phase) fault point of the generated run is enumerated. Non-trivial = helper tasks were "
     "created (>= 2 tail tasks with different due times and the option on) or a fault was injected after step 0; "
     "distinct by case hash."
@@ -45,6 +46,10 @@ PH = ["updated", "allocated", "performed", "recorded"]
 @st.composite
 def _case(draw, cfg, tier):
     spec = draw(gen.model_spec(cfg))
+    for t in spec["tasks"]:
+        if t["comp"] is None and not t["nf"] and draw(st.integers(0, 4)) == 0:
+            t["auto"] = True
+            t["sub"] = {"unit_s": 60}
     fault = None
     if draw(st.booleans()):
         fault = [draw(st.integers(0, 12)), draw(st.sampled_from(PH))]
@@ -54,13 +59,14 @@ def _case(draw, cfg, tier):
         "rev": draw(st.booleans()),
         "fault": fault,
         "all_faults": tier != "quick" and draw(st.integers(0, 3)) == 0,
+        "via_json": draw(st.integers(0, 3)) == 0,
     }
 
 
 # several dependency kinds on one task, everybody can do everything: tasks held WORKING with nothing left to do by a
 # finish-to-finish / start-to-finish link while their finish-to-start neighbours wait (in the backward run the links
 # point the other way)
-CFG_DEP = gen.Cfg(facilities=False, min_tasks=3, max_tasks=5, max_workers=3, kinds=[0, 0, 2, 2, 3], max_deps_factor=1, max_time=[60], abs_max=10, due=True,
+CFG_DEP = gen.Cfg(facilities=False, min_tasks=3, max_tasks=5, max_workers=3, kinds=[0, 0, 2, 2, 3], max_deps_factor=2, max_time=[60], abs_max=10, due=True,
                   work_pool=[1.0, 2.0, 2.0, 3.0, 5.0], progress=False, p_auto=0, worker_abs=False, fixed_ids=False, solo=False, dup_names=6)
 
 
@@ -69,6 +75,10 @@ def _case_dep(draw, cfg, tier):
     case = draw(_case(cfg, tier))
     spec = case["spec"]
     n = len(spec["tasks"])
+    for t in spec["tasks"]:
+        if t.get("sub"):
+            t.pop("sub")
+            t["auto"] = False
     for tm in spec["teams"]:
         tm["targets"] = list(range(n))
         tm.pop("notask", None)
@@ -84,14 +94,14 @@ def _case_dep(draw, cfg, tier):
 
 def strategy(tier):
     if tier == "quick":
-        return st.one_of(_case(CFG, tier), _case(CFG, tier), _case(CFG_N, tier), _case_dep(CFG_DEP, tier))
+        return st.one_of(_case(CFG, tier), _case(CFG, tier), _case(CFG_N, tier), _case_dep(CFG_DEP, tier), _case_dep(CFG_DEP, tier))
     big = dict(max_tasks=9)
     return st.one_of(_case(CFG.copy(**big), tier), _case(CFG.copy(**big), tier), _case(CFG_N.copy(**big), tier), _case_dep(CFG_DEP.copy(max_tasks=7), tier))
 
 
 def budget(tier):
     if tier == "quick":
-        return {"cases": 2400, "shards": 6}
+        return {"cases": 3200, "shards": 8}
     return {"cases": 60000, "shards": 16}
 
 
@@ -121,8 +131,17 @@ def compare_structure(before, after, res, where):
     return True
 
 
-def run_one(spec, due, rev, fault, res, fresh_dump, want_order):
+def run_one(spec, due, rev, fault, res, fresh_dump, want_order, via_json=False):
     h = S.build(spec)
+    if via_json:
+        # the model has been saved and loaded: backward_simulate works on the restored objects
+        p2, _ = S.json_roundtrip(h.project, "c17.json")
+        tasks = {t.ID: t for t in p2.workflow.task_list}
+        wps = {w.ID: w for w in p2.organization.workplace_list}
+        h = S.Handles()
+        h.project = p2
+        h.tasks = [tasks[S.tid(i)] for i in range(len(spec["tasks"]))]
+        h.wps = [wps[S.wpid(i)] for i in range(len(spec["wps"]))]
     p = h.project
     before = structure(h)
     known = set(id(t) for t in h.tasks)
@@ -181,7 +200,9 @@ def check(case):
     S.simulate(hf.project, spec["opts"])
     fresh = S.dump(hf.project)
     due, rev = case["due"], case["rev"]
-    raised, steps = run_one(spec, due, rev, case["fault"], res, fresh, True)
+    via_json = bool(case.get("via_json")) and S.json_domain(spec) == spec
+    res.cls("model_loaded_from_json", via_json)
+    raised, steps = run_one(spec, due, rev, case["fault"], res, fresh, True, via_json=via_json)
     res.stats["backward_runs"] += 1
     tails = [i for i in range(len(spec["tasks"])) if not any(a == i for a, b, k in spec["deps"])]
     helper = due and len(set(spec["tasks"][i]["due"] for i in tails)) > 1
